@@ -588,6 +588,7 @@ impl Model {
                     .collect();
                 self.unchanged(Pat::Exact(Res::Paths(l)))
             },
+            ConfigDir(_) => Expect::Unspecified("config_dir (environment dependent, judged by C18)"),
             Entries(p) => {
                 let a = a1!(p);
                 if self.node(&a).is_none() {
